@@ -23,6 +23,13 @@ HARNESS = os.path.join(VERIF, "harness")
 WORK = os.path.join(VERIF, "work")
 REPO = os.environ.get("VERIF_REPO", "/repo")
 ALT = REPO != "/repo"          # development aid: run the same check against a scratch copy of the repository
+if ALT:
+    # the alternative repository gets its own copy of the Lean project (Generated tables, build
+    # products), so a run against a modified tree never touches what the registered checks use
+    _alt_lean = os.path.join(WORK, "alt-lean")
+    os.makedirs(_alt_lean, exist_ok=True)
+    subprocess.run(["rsync", "-a", "--delete", "--exclude", "TeraModel/Generated", LEAN + "/", _alt_lean + "/"], check=True)
+    LEAN = _alt_lean
 
 ALLOWED_AXIOMS = {"propext", "Classical.choice", "Quot.sound"}
 FORBIDDEN = re.compile(r"\b(sorry|admit|native_decide|bv_decide|implemented_by|unsafe)\b|^axiom\s|maxHeartbeats 0")
@@ -112,7 +119,8 @@ def translate(pid, result):
     tr = os.path.join(VERIF, "translator", "extract.py")
     if not os.path.exists(tr):
         return
-    rc, out, dt = run([sys.executable, tr], cwd=VERIF, env={"VERIF_REPO": REPO}, timeout=120)
+    rc, out, dt = run([sys.executable, tr], cwd=VERIF,
+                      env={"VERIF_REPO": REPO, "VERIF_GENERATED_OUT": os.path.join(LEAN, "TeraModel", "Generated")}, timeout=120)
     result["translator_s"] = round(dt, 2)
     if rc != 0:
         # an extractor failed: this property is affected only if it imports one of that table's outputs
@@ -255,7 +263,7 @@ def run_harness(pid, cfg, exe, tier, seed, result, extra_args=(), tag=""):
     out_file = os.path.join(WORK, f"{pid}.{tag + '.' if tag else ''}{tier}.result.json")
     if os.path.exists(out_file):
         os.remove(out_file)
-    env = {"VERIF_TIER": tier, "VERIF_SEED": str(seed), "VERIF_DIR": VERIF}
+    env = {"VERIF_TIER": tier, "VERIF_SEED": str(seed), "VERIF_DIR": VERIF, "VERIF_LEAN_DIR": LEAN}
     timeout = cfg.get("timeout_s", {}).get(tier, 1500 if tier == "quick" else 7200)
     rc, out, dt = run([exe, "--out", out_file] + list(extra_args), cwd=VERIF, env=env, timeout=timeout)
     result["harness_s"] = round(result.get("harness_s", 0) + dt, 2)
